@@ -1460,9 +1460,16 @@ class PlacementFeasibilityTracker:
 
     @staticmethod
     def _shape(app):
-        """App shape, including the traits required by the app."""
+        """App shape, including the traits required by the app and the
+        levels of its affinity limits (app shape has the limit values only).
+        """
         constraints, demand = app.shape()
-        return constraints + (app.traits,), demand
+        limits = tuple(sorted(
+            (level, limit)
+            for level, limit in six.iteritems(app.affinity.limits)
+            if limit != float('inf')
+        ))
+        return constraints + (app.traits, limits), demand
 
     def feasible(self, app):
         """Checks if it is feasible to satisfy demand."""
